@@ -45,7 +45,14 @@ func init() {
 			Req: []string{"ok(oidc.ParseToken($authReq.RequestParam, $ro))", "def($payload, oidc.ParseToken($authReq.RequestParam, $ro), 0)",
 				"ok(oidc.CheckSignature(_, $authReq.RequestParam, $payload, $ro, nil, &jwtProfileKeySet{storage: $storage, clientID: $ro.Issuer}))"}},
 
-		// key sets
+		// key sets: the candidates handed to key selection are the last successfully downloaded set (cached path) resp. the
+		// set the refresh returned (remote path) - never another container (a withdrawn key must stop being trusted)
+		{ID: "E8.keyset.remote.cached-candidates", Fn: "client/rp.(*remoteKeySet).verifySignatureCached", P: []string{"r", "jws", "keyID", "alg"}, Kind: "call", Pat: "oidc.FindMatchingKey(_, _, _, $keys)", Max: 1,
+			Why: "the cached path selects among exactly the keys of the last successful download", Req: []string{"def($keys, $r.keysFromCache()) || def($keys, $r.cachedKeys)"}},
+		{ID: "E8.keyset.remote.cache-getter", Fn: "client/rp.(*remoteKeySet).keysFromCache", P: []string{"r"}, Kind: "ret any", Pat: "ret($r.cachedKeys)", Opt: true, Only: true,
+			Why: "the cache getter hands out the last downloaded set and nothing else"},
+		{ID: "E8.keyset.remote.remote-candidates", Fn: "client/rp.(*remoteKeySet).verifySignatureRemote", P: []string{"r", "ctx", "jws", "keyID", "alg"}, Kind: "call", Pat: "oidc.FindMatchingKey(_, _, _, $keys)", Max: 1,
+			Why: "the remote path selects among exactly the keys the refresh returned", Req: []string{"def($keys, $r.keysFromRemote(_), 0)", "ok($r.keysFromRemote(_))"}},
 		{ID: "E1.keyset.remote.cached", Fn: "client/rp.(*remoteKeySet).verifySignatureCached", P: []string{"r", "jws", "keyID", "alg"}, Kind: "ret ok", Not: "ret(nil, nil)",
 			Req: []string{"def($r0, $jws.Verify(&$key), 0)", "nonnil($r0)", "def($key, " + fmk + ", 0)", "ok(" + fmk + ")"}},
 		{ID: "E1.keyset.remote.remote", Fn: "client/rp.(*remoteKeySet).verifySignatureRemote", P: []string{"r", "ctx", "jws", "keyID", "alg"}, Kind: "ret ok", Max: 1,
